@@ -78,7 +78,8 @@ ATTRS = ['min_occurs', 'max_occurs', 'nillable', 'nullable', 'default',
          'exc', 'sub_name', 'sub_ns', 'order', 'total_digits',
          'fraction_digits', 'min_bound', 'max_bound', 'unicode_pattern',
          'validate_freq', 'not_wrapped', 'wrapper', 'read_only',
-         'max_str_len', 'format', 'encoding', 'validate_on_assignment']
+         'max_str_len', 'format', 'encoding', 'validate_on_assignment',
+         'primary_key', 'sqla_column_args', 'prot_attrs', 'translations']
 
 PROBE_STR = [u'', u'a', u'abc', u'abcdefghijkl', u'0', u'7', u'-5', u'1000',
              u'2020-01-02', u'x y', None]
@@ -97,7 +98,9 @@ PRIMS = [('Integer', Integer), ('Unicode', Unicode), ('Decimal', Decimal),
 GENERIC_ATTRS = [('min_occurs', (0, 1, 2)), ('max_occurs', (1, 3, 'unbounded')),
                  ('nillable', (True, False)), ('sub_name', ('alias', 'other')),
                  ('exc', (True, False)), ('order', (0, 1, -1)),
-                 ('default', (None,))]
+                 ('default', (None,)), ('pk', (True, False)),
+                 ('autoincrement', (True,)), ('server_default', ('sd',)),
+                 ('doc', ('some doc',))]
 INT_ATTRS = [('ge', (0, 5)), ('le', (10, 100)), ('gt', (-1,)), ('lt', (1000,)),
              ('default', (3, 7))]
 UNI_ATTRS = [('min_len', (1, 2)), ('max_len', (5, 8)),
@@ -139,6 +142,12 @@ def snapshot(cls, depth=0, seen=None):
     A = cls.Attributes
     s['attrs'] = dict((k, _canon(getattr(A, k))) for k in ATTRS
                                                         if hasattr(A, k))
+    # customisation fills these defaults in (None -> empty container): the same
+    # value as far as any observer can tell
+    for k in ('translations', 'prot_attrs', 'sqla_column_args'):
+        v = s['attrs'].get(k)
+        if v in (None, [], [[], []], {}):
+            s['attrs'][k] = None
     tn = cls.get_type_name()
     s['type_name'] = None if tn is ModelBase.Empty else tn
     s['namespace'] = cls.get_namespace()
@@ -543,6 +552,12 @@ class Machine(object):
         """new member == source + overrides on the public attributes."""
         a = snapshot(self.pool[i])['attrs']
         b = snapshot(new)['attrs']
+        overrides = dict(overrides)
+        if 'pk' in overrides:
+            overrides['primary_key'] = overrides.pop('pk')
+        for k_ in ('autoincrement', 'server_default', 'doc'):
+            overrides.pop(k_, None)      # live in sqla_column_args / Annotations
+        ignore = tuple(ignore) + ('sqla_column_args',)
         for name in sorted(set(a) | set(b)):
             if name in ignore:
                 continue
